@@ -13,7 +13,7 @@ LDLIBS   := -levent -lm -ldl
 CORE_SRC := accumulators bitset common config log module set git-version
 CORE_OBJ := $(addprefix $(B)/obj/,$(addsuffix .o,$(CORE_SRC)))
 MODS     := iauth iauth_xquery iauth_class
-STUBN    := m0 m1 m2 m3 m4 m5
+STUBN    := m0 m1 m2 m3 m4 m5 m6 m7 m8 m9
 # each stub in four variants: all hooks / no post-init / no destructor / neither (separate files: dlopen
 # identifies a library by its inode)
 STUBS    := $(STUBN) $(addsuffix _np,$(STUBN)) $(addsuffix _nd,$(STUBN)) $(addsuffix _npd,$(STUBN))
